@@ -28,7 +28,7 @@ struct il_less : cc::iterable_list::traits { typedef Less less; typedef cds::ato
 struct il_cmp : cc::iterable_list::traits { typedef Cmp compare; typedef cds::atomicity::item_counter item_counter; typedef cc::iterable_list::stat<> stat; };
 
 typedef Cfg<CAPS_FULL> C_full; typedef Cfg<CAPS_FULL, true> C_repl; typedef Cfg<CAPS_FULL, false, true, true, true, true> C_lazy_rcu;
-void gen(Rng& r, Program& p, int tier, const std::string&) { GenCfg g; g.min_hazards = 8; gen_program(r, p, tier, g); }
+void gen(Rng& r, Program& p, int tier, const std::string&) { GenCfg g; g.min_hazards = 8; g.nkeys_hot = r.pick({3, 3, 5, 6}); gen_program(r, p, tier, g); }
 #define COMPL(f) "real: " f ", SMR (HP/DHP src, RCU headers); simulated: scheduler, weak-CAS failures, stalls, thread churn, eager reclamation, (RCU) mutex/condvar/signals; oracle: linearizability vs key->instance map incl. quiescent find of every key, exact ordered traversal, size()/empty()"
 #define LIST_SET(var, NAME, GC, LIST, CFG, F) typedef SetA<GC, LIST, CFG> T_##var; SM_SUBJECT(var, NAME, "C13,C18,C20", T_##var, gen, COMPL(F))
 #define LIST_MAP(var, NAME, GC, LIST, CFG, F) typedef MapA<GC, LIST, CFG> T_##var; SM_SUBJECT(var, NAME, "C13,C18,C20", T_##var, gen, COMPL(F))
